@@ -140,7 +140,16 @@ def clone (junk : α) (l : UList α) : UList α :=
 def copyInto (junk : α) (l : UList α) (tgt : UList α) : Option (UList α) :=
   l.window.foldl (fun acc x => acc.bind fun t => t.push junk x) (some tgt)
 
-/-- insertion into a sorted list (the order produced by `sort_r` with a total comparator) -/
+/-- the comparator the tie uses (`memcmp` of equal-sized units / `memcmp` then size for items): lexicographic
+order of byte strings, a proper prefix first -/
+def bytesLe : Bytes → Bytes → Bool
+  | [], _ => true
+  | _ :: _, [] => false
+  | a :: as, b :: bs => if a < b then true else if a > b then false else bytesLe as bs
+
+/-- insertion into a sorted list.  `sort_r` is libc's `qsort_r`; its code is not modelled.  For a total,
+transitive, antisymmetric comparator the sorted permutation of a list is unique (`Arr.sorted_perm_unique`),
+so insertion sort denotes the result of *any* correct sort. -/
 def insSorted (le : α → α → Bool) (x : α) : List α → List α
   | [] => [x]
   | y :: ys => if le x y then x :: y :: ys else y :: insSorted le x ys
